@@ -26,6 +26,7 @@ type engCtx struct {
 	stdL   *regexp.Regexp // leftmost-longest
 	stdA   *regexp.Regexp // anchored at start: ^(?:p)
 	stdAL  *regexp.Regexp
+	stdAt  *regexp.Regexp // (?s)^.{at}.*?(p): leftmost-first match of p starting at or after byte offset at (ASCII haystacks)
 	set    [256]bool
 	cfg    lazy.Config
 }
@@ -121,6 +122,9 @@ func setupEng(it *Item) *engCtx {
 	c.stdA = regexp.MustCompile(`^(?:` + it.Pattern + `)`)
 	c.stdAL = regexp.MustCompile(`^(?:` + it.Pattern + `)`)
 	c.stdAL.Longest()
+	if it.N > 0 && it.Mode == 1 {
+		c.stdAt = regexp.MustCompile(`(?s)^.{` + itoa(it.N) + `}.*?(` + it.Pattern + `)`)
+	}
 	setSet(&c.set, it.Alpha)
 	return c
 }
@@ -162,6 +166,14 @@ func runC14(c *engCtx, it *Item) {
 	var first, longest []int
 	if at == 0 {
 		first, longest = c.std.FindIndex(h), c.stdL.FindIndex(h)
+	} else if c.stdAt != nil {
+		// look-behind pattern at an offset: the reference sees the whole haystack
+		// (ASCII alphabet, so one rune is one byte); corpus patterns of this kind
+		// have no leftmost-first / leftmost-longest ambiguity
+		if m := c.stdAt.FindSubmatchIndex(h); m != nil {
+			first = []int{m[2], m[3]}
+			longest = first
+		}
 	} else {
 		if f := c.std.FindIndex(h[at:]); f != nil {
 			first = []int{f[0] + at, f[1] + at}
